@@ -1,5 +1,1013 @@
 package contractcourt
 
-import "verif/simcore"
+// Property C13: contract resolution survives restarts — same outcome, nothing
+// skipped or repeated.
+//
+// Built on the C12 world (closesim_c12_world.go): a real ChannelArbitrator,
+// its real bolt-backed log and the real contract resolvers run inside a
+// testing/synctest bubble against recording stubs. The log's database is a
+// simcore.SimKV, so every durable write of the closing state machine is one
+// numbered write transaction.
+//
+// One run =
+//   1. a seeded close scenario (C12 model: HTLC sets, heights, close trigger)
+//      plus a CHAIN SCRIPT (closesim_c13_chain.go) that is fixed by the tape
+//      before anything executes: who spends which HTLC output, when, and how
+//      long every sweep needs to confirm;
+//   2. the REFERENCE execution of that scenario, uninterrupted, to its
+//      terminal state (W = number of write transactions it performed);
+//   3. one further execution of the same script per chosen crash point
+//      (CrashBefore(k) / CrashAfter(k), k in 1..W; optionally a second crash
+//      after the restart): at the crash the database is fenced, the old
+//      arbitrator is stopped, the SimKV is reopened and a new arbitrator is
+//      built from disk the way ChainArbitrator.Start does it; the chain script
+//      continues unchanged;
+//   4. the comparison of every such execution with the reference
+//      (closesim_c13_oracle.go).
+//
+// Each execution runs in its own bubble and its own world.
 
-func zzRunC13(r *simcore.Run) { r.Harness("C13 not built yet") }
+import (
+	"fmt"
+	"os"
+	"runtime"
+	"sort"
+	"strings"
+	"testing"
+	"time"
+
+	"github.com/btcsuite/btcd/chainhash/v2"
+	"github.com/btcsuite/btcd/wire/v2"
+	"github.com/lightningnetwork/lnd/kvdb"
+
+	"verif/simcore"
+)
+
+func zzRunC13(r *simcore.Run) {
+	t := zzGetT()
+	zzC13Main(r, t)
+}
+
+// ---------------------------------------------------------------------------
+// scenario script
+
+// zzC13Op is one recorded stimulus of the scenario with the draws it consumed.
+type zzC13Op struct {
+	kind string
+	vals []int
+}
+
+// zzC13Src serves draws: in the reference execution from the tape (recording
+// them), in every other execution from the recording.
+type zzC13Src struct {
+	r   *simcore.Run
+	rec bool
+	ops []zzC13Op
+	cur *zzC13Op
+	pos int
+}
+
+func (s *zzC13Src) begin(kind string) {
+	if s.rec {
+		s.ops = append(s.ops, zzC13Op{kind: kind})
+		s.cur = &s.ops[len(s.ops)-1]
+	}
+	s.pos = 0
+}
+
+func (s *zzC13Src) draw(n int) int {
+	if n <= 0 {
+		return 0
+	}
+	if s.rec {
+		v := s.r.Draw(n)
+		s.cur.vals = append(s.cur.vals, v)
+		return v
+	}
+	if s.cur == nil || s.pos >= len(s.cur.vals) {
+		s.pos++
+		return 0
+	}
+	v := s.cur.vals[s.pos]
+	s.pos++
+	if v < 0 {
+		v = -v
+	}
+	return v % n
+}
+
+type zzC13Scenario struct {
+	model   *zzModel // pristine; every execution works on a copy
+	cfg     zzC12Cfg
+	maxPre  int
+	ops     []zzC13Op
+	closeAt int // index in ops of the close trigger, -1 if none
+}
+
+// zzC13Normalize narrows the C12 model where C12's subject (or an lnd quirk
+// that exists without any restart) would otherwise leak into C13:
+//
+//   - every offered HTLC counts as forwarded. For our own payments the
+//     arbitrator waits until its uptime exceeds the grace period before it
+//     goes on chain; a restart resets the uptime, so "the same decision after
+//     a restart" would not hold by design;
+//   - a received HTLC is an exit hop only if no other HTLC shares its hash,
+//     and what we know about an exit-hop hash is what the invoice registry
+//     knows (invoice / hodl invoice / nothing) while for forwarded HTLCs it is
+//     what the witness beacon knows. With the preimage in the beacon but no
+//     invoice, htlcIncomingContestResolver.Launch claims the HTLC (beacon
+//     lookup) while its Resolve abandons it at expiry (registry lookup) —
+//     with or without a restart.
+func zzC13Normalize(m *zzModel) {
+	uses := map[int]int{}
+	for _, h := range m.htlcs {
+		uses[h.hashNo]++
+		if !h.incoming {
+			h.fwd = true
+		}
+	}
+	exitHash := map[int]bool{}
+	for _, h := range m.htlcs {
+		if h.incoming && h.exit {
+			if uses[h.hashNo] > 1 {
+				h.exit = false
+			} else {
+				exitHash[h.hashNo] = true
+			}
+		}
+	}
+	for no, k := range m.know {
+		switch {
+		case exitHash[no] && k == zzKnowBeacon:
+			m.know[no] = zzKnowInvoice
+		case !exitHash[no] && k == zzKnowInvoice:
+			m.know[no] = zzKnowBeacon
+		case !exitHash[no] && k == zzKnowHodl:
+			m.know[no] = zzKnowNone
+		}
+	}
+}
+
+// zzC13ExitHash reports whether some received exit-hop HTLC pays to hash no.
+func zzC13ExitHash(m *zzModel, no int) bool {
+	for _, h := range m.htlcs {
+		if h.incoming && h.exit && h.hashNo == no {
+			return true
+		}
+	}
+	return false
+}
+
+func zzC13CloneModel(m *zzModel) *zzModel {
+	c := *m
+	c.htlcs = make([]*zzHtlc, len(m.htlcs))
+	for i, h := range m.htlcs {
+		hc := *h
+		c.htlcs[i] = &hc
+	}
+	c.know = append([]int(nil), m.know...)
+	zzC13Normalize(&c)
+	return &c
+}
+
+// ---------------------------------------------------------------------------
+// crash plan
+
+type zzC13Crash struct {
+	k     int  // 1-based write index within the epoch
+	after bool // CrashAfter (the write commits) instead of CrashBefore
+}
+
+func (c zzC13Crash) String() string {
+	if c.after {
+		return fmt.Sprintf("after-write-%d", c.k)
+	}
+	return fmt.Sprintf("before-write-%d", c.k)
+}
+
+// ---------------------------------------------------------------------------
+// one execution
+
+type zzC13Exec struct {
+	r   *simcore.Run
+	t   *testing.T
+	sc  *zzC13Scenario
+	src *zzC13Src
+	ref *zzC13Outcome // nil while executing the reference
+
+	w     *zzWorld
+	chain *zzC13Chain
+
+	crashes []zzC13Crash // crash i is armed in epoch i+1
+	fired   []string     // descriptions of the crashes that fired
+
+	// write labels per epoch: labels[e][k] = where write k of epoch e+1 came from
+	labels   []map[int]string
+	inLabel  bool
+	writesIn []int // write transactions attempted per finished epoch
+
+	// bookkeeping
+	resolvedSeen  map[int]int // epoch -> resolved signals handled
+	learnedSeen   int
+	restarts      int
+	crashStims    []int    // stimulus number at which crash i was noticed
+	crashStates   []string // arbitrator state (in memory) when crash i was noticed
+	diskStates    []string // arbitrator state found on disk at restart i
+	keysSeen      map[string]bool
+	// resolver key -> name, for resolvers found persisted as "resolved"
+	// in the unresolved-contracts bucket at a restart
+	resolvedAtRestart map[string]string
+	postBlocks    int
+	terminalAt    int // stimulus at which the channel was marked fully closed
+	markAttempts  int
+	earlyMark     string
+	slackUsed     int
+	skippedOps    int
+	localCommitUp bool
+
+	out *zzC13Outcome
+}
+
+func zzC13Main(r *simcore.Run, t *testing.T) {
+	m, cfg := zzDrawModel(r)
+	tp := r.Tape
+	// Uptime versus PaymentsExpirationGracePeriod is C12's subject. Here it
+	// would make "the same decision again after a restart" depend on the
+	// uptime counter that a restart legitimately resets.
+	cfg.world.grace = 0
+	sc := &zzC13Scenario{model: m, cfg: cfg, closeAt: -1}
+	sc.maxPre = 2 + tp.CfgDraw(8)
+	r.Arm = map[bool]string{true: "anchors", false: "legacy"}[m.anchors]
+
+	// ---- reference execution
+	ref := &zzC13Exec{r: r, t: t, sc: sc, src: &zzC13Src{r: r, rec: true}}
+	r.Logf("=== reference execution")
+	ref.execute()
+	sc.ops = ref.src.ops
+	refOut := ref.out
+	W := refOut.writes[0]
+	r.Add("ref_writes", int64(W))
+	r.Logf("=== reference done: %s", refOut.summary())
+	if refOut.closeKind == "" || W == 0 {
+		// nothing was closed (short replay tape): nothing to enumerate
+		return
+	}
+	r.Count("probe_ref_close_" + refOut.closeKind)
+	if refOut.fully {
+		r.Count("probe_ref_fully_resolved")
+	} else {
+		r.Count("probe_ref_not_terminal")
+	}
+	if len(refOut.reports) > 0 {
+		r.Count("probe_ref_with_reports")
+	}
+
+	// ---- crash points
+	nPoints := 2 * W
+	single, double := nPoints, W
+	if r.Tier != "thorough" {
+		// quick tier: a seeded sample when the scenario has many writes
+		if single > 14 {
+			single = 14
+		}
+		double = 3
+	}
+	tested := map[int]bool{}
+	w2 := map[int]int{} // point -> writes of the epoch after the first restart
+	pick := func(d int) int {
+		for i := 0; i < nPoints; i++ {
+			p := (d + i) % nPoints
+			if !tested[p] {
+				return p
+			}
+		}
+		return -1
+	}
+	point := func(p int) zzC13Crash { return zzC13Crash{k: p/2 + 1, after: p%2 == 1} }
+	completed := 0
+	for i := 0; i < single && r.Step(); i++ {
+		p := pick(r.Draw(nPoints))
+		if p < 0 {
+			r.Kind("crash-none")
+			break
+		}
+		tested[p] = true
+		c := point(p)
+		r.Kind("crash-" + c.String())
+		ex := &zzC13Exec{r: r, t: t, sc: sc, ref: refOut, crashes: []zzC13Crash{c},
+			src: &zzC13Src{r: r, ops: sc.ops}}
+		r.Logf("=== crash execution %s (%s)", c, refOut.label(0, c.k))
+		ex.execute()
+		if len(ex.fired) > 0 {
+			completed++
+			if c.after {
+				r.Count("fault_crash_after")
+			} else {
+				r.Count("fault_crash_before")
+			}
+			if len(ex.out.writes) > 1 {
+				w2[p] = ex.out.writes[1]
+			}
+		} else {
+			r.Count("crash_point_not_reached")
+		}
+	}
+	// second crash after the restart
+	for i := 0; i < double && r.Step(); i++ {
+		p := r.Draw(nPoints)
+		c1 := point(p)
+		n2, ok := w2[p]
+		if !ok {
+			// need the length of the second epoch first
+			pre := &zzC13Exec{r: r, t: t, sc: sc, ref: refOut, crashes: []zzC13Crash{c1},
+				src: &zzC13Src{r: r, ops: sc.ops}}
+			r.Logf("=== crash execution %s (%s) [for second-crash planning]", c1, refOut.label(0, c1.k))
+			pre.execute()
+			if len(pre.out.writes) > 1 {
+				n2 = pre.out.writes[1]
+			}
+			w2[p] = n2
+			if len(pre.fired) > 0 && !tested[p] {
+				tested[p] = true
+				completed++
+				if c1.after {
+					r.Count("fault_crash_after")
+				} else {
+					r.Count("fault_crash_before")
+				}
+			}
+		}
+		if n2 == 0 {
+			r.Kind("crash2-none")
+			r.Count("second_epoch_without_writes")
+			continue
+		}
+		c2 := zzC13Crash{k: 1 + r.Draw(n2), after: r.Draw(2) == 1}
+		r.Kind("crash2-" + c1.String() + "+" + c2.String())
+		ex := &zzC13Exec{r: r, t: t, sc: sc, ref: refOut, crashes: []zzC13Crash{c1, c2},
+			src: &zzC13Src{r: r, ops: sc.ops}}
+		r.Logf("=== double crash execution %s then %s", c1, c2)
+		ex.execute()
+		if len(ex.fired) > 1 {
+			completed++
+			r.Count("fault_second_crash")
+		}
+	}
+	r.Add("crash_executions", int64(completed))
+	// non-trivial: a channel was closed with at least one durable write, and
+	// at least one execution crashed, restarted and was compared to the end.
+	r.Nontrivial = completed > 0
+}
+
+// execute runs the scenario once (in its own bubble and world).
+func (ex *zzC13Exec) execute() {
+	zzInBubble(ex.t, ex.r, ex.run)
+}
+
+func (ex *zzC13Exec) run() {
+	r, sc := ex.r, ex.sc
+	m := zzC13CloneModel(sc.model)
+	w := zzNewWorld(r, ex.t, m, sc.cfg.world)
+	ex.w = w
+	w.trace = ex.ref == nil
+	ex.chain = zzC13NewChain(ex)
+	ex.resolvedSeen = map[int]int{}
+	ex.keysSeen = map[string]bool{}
+	ex.resolvedAtRestart = map[string]string{}
+	ex.labels = []map[int]string{{}}
+	w.spent = ex.chain.spent
+	w.onPublish = ex.chain.onPublish
+	w.onIncubate = ex.chain.onIncubate
+	w.kv.OnTx = ex.onTx
+	defer func() {
+		w.kv.OnTx = nil
+		w.kill()
+		path := w.kv.Path()
+		w.kv.Close()
+		os.Remove(path)
+	}()
+	if len(ex.crashes) > 0 {
+		ex.arm(ex.crashes[0])
+	}
+
+	if ex.ref == nil {
+		r.Logf("cfg anchors=%v outDelta=%d inDelta=%d grace=%v perBlock=%v csv=%d startH=%d htlcs=%d hasP=%v maxPre=%d",
+			m.anchors, sc.cfg.world.outDelta, sc.cfg.world.inDelta, sc.cfg.world.grace, sc.cfg.world.perBlock,
+			m.csv, m.startH, m.live(), m.hasP, sc.maxPre)
+		ex.logSets()
+	}
+
+	w.nextStim("start")
+	w.boot()
+	ex.pump()
+
+	if ex.ref == nil {
+		ex.runReference()
+	} else {
+		ex.runReplay()
+	}
+	ex.finish()
+}
+
+func (ex *zzC13Exec) arm(c zzC13Crash) {
+	if c.after {
+		ex.w.kv.CrashAfter(c.k)
+	} else {
+		ex.w.kv.CrashBefore(c.k)
+	}
+}
+
+func (ex *zzC13Exec) logSets() {
+	m := ex.w.m
+	for s := 0; s < 3; s++ {
+		if s == zzSetP && !m.hasP {
+			continue
+		}
+		var parts []string
+		for _, h := range m.members(s) {
+			d := ""
+			if h.dust[s] {
+				d = " dust"
+			}
+			k := ""
+			if m.known(h.hashNo) {
+				k = " known"
+			}
+			f := ""
+			if !h.incoming && h.fwd {
+				f = " fwd"
+			}
+			parts = append(parts, fmt.Sprintf("%v%s%s%s", h, d, k, f))
+		}
+		ex.r.Logf("  set %s: %v", zzSetName[s], parts)
+	}
+}
+
+// ---------------------------------------------------------------------------
+// the reference execution draws the script from the tape
+
+func (ex *zzC13Exec) enabledPre(force bool) []string {
+	w, m := ex.w, ex.w.m
+	var ops []string
+	if !force {
+		ops = []string{"block", "block", "skip"}
+		if !w.frozen {
+			if m.hasP {
+				ops = append(ops, "proto-revoke")
+			} else {
+				ops = append(ops, "proto-sign")
+			}
+			ops = append(ops, "proto-local")
+			for _, k := range m.know {
+				if k == zzKnowNone {
+					ops = append(ops, "learn")
+					break
+				}
+			}
+		}
+		if !w.userAsked {
+			ops = append(ops, "user")
+		}
+		// close triggers are the rarer choice (a zeroed draw means none)
+		if !ex.r.Chance(1, 3) {
+			return ops
+		}
+	}
+	ops = append(ops, "close-remote", "close-remote")
+	hasP := m.hasP
+	if w.frozen {
+		hasP = w.commits[zzSetP] != nil
+	}
+	if hasP {
+		ops = append(ops, "close-remote-pending")
+	}
+	if ex.localCommitUp {
+		ops = append(ops, "close-local", "close-local", "close-local")
+	}
+	ops = append(ops, "close-breach")
+	if m.live() == 0 && !ex.localCommitUp {
+		ops = append(ops, "close-coop")
+	}
+	return ops
+}
+
+func (ex *zzC13Exec) runReference() {
+	r, w := ex.r, ex.w
+	steps := 0
+	for w.closeDelivered == "" && r.Step() {
+		steps++
+		ops := ex.enabledPre(steps > ex.sc.maxPre)
+		op := ops[r.Draw(len(ops))]
+		r.Kind(op)
+		ex.src.begin(op)
+		ex.apply(op)
+	}
+	if w.closeDelivered == "" {
+		return
+	}
+	ex.sc.closeAt = len(ex.src.ops) - 1
+	max := ex.chain.postBudget()
+	for ex.postBlocks < max && !ex.terminal() && r.Step() {
+		r.Kind("block")
+		ex.src.begin("block")
+		ex.apply("block")
+	}
+}
+
+func (ex *zzC13Exec) runReplay() {
+	for i := range ex.sc.ops {
+		op := &ex.sc.ops[i]
+		ex.src.cur = op
+		ex.src.pos = 0
+		if ex.terminal() && op.kind == "block" && ex.w.closeDelivered != "" {
+			continue
+		}
+		ex.apply(op.kind)
+	}
+	// The property promises the same outcome, not the same block count: an
+	// execution that restarted gets a few more blocks than the reference
+	// needed before "never reaches the terminal state" is concluded.
+	if ex.ref.fully && ex.w.closeDelivered != "" {
+		for i := 0; i < 6 && !ex.terminal(); i++ {
+			ex.slackUsed++
+			ex.src.cur = nil
+			ex.apply("block")
+		}
+	}
+}
+
+func (ex *zzC13Exec) terminal() bool {
+	return ex.terminalAt > 0 || (ex.w.inc != nil && ex.w.inc.arb == nil)
+}
+
+// apply executes one scenario stimulus.
+func (ex *zzC13Exec) apply(op string) {
+	w, m := ex.w, ex.w.m
+	draw := ex.src.draw
+	switch op {
+	case "block":
+		if w.closeDelivered == "" {
+			ex.preBlock(1)
+		} else {
+			ex.postBlock()
+		}
+	case "skip":
+		n := 2 + draw(6)
+		if w.closeDelivered != "" {
+			ex.skippedOps++
+			return
+		}
+		ex.preBlock(n)
+	case "proto-sign":
+		if w.frozen || m.hasP {
+			ex.skippedOps++
+			return
+		}
+		w.nextStim("we sign a new remote commitment")
+		m.signRemote(draw, w.height)
+		zzC13Normalize(m)
+		w.sendUpdates(zzSetP)
+	case "proto-revoke":
+		if w.frozen || !m.hasP {
+			ex.skippedOps++
+			return
+		}
+		w.nextStim("peer revokes")
+		m.remoteRevoke()
+		w.sendUpdates(zzSetR)
+	case "proto-local":
+		if w.frozen {
+			ex.skippedOps++
+			return
+		}
+		w.nextStim("peer signs, we revoke")
+		m.localAdvance(draw, w.height)
+		zzC13Normalize(m)
+		w.sendUpdates(zzSetL)
+	case "learn":
+		var cand []int
+		for no, k := range m.know {
+			if k == zzKnowNone {
+				cand = append(cand, no)
+			}
+		}
+		d1, d2 := draw(len(cand)), draw(2)
+		if len(cand) == 0 {
+			ex.skippedOps++
+			return
+		}
+		no := cand[d1%len(cand)]
+		m.know[no] = []int{zzKnowBeacon, zzKnowInvoice}[d2]
+		zzC13Normalize(m)
+		w.nextStim(fmt.Sprintf("preimage of hash%d becomes known (%d)", no, m.know[no]))
+	case "user":
+		if w.closeDelivered != "" || ex.terminal() {
+			ex.skippedOps++
+			return
+		}
+		w.nextStim("user requests force close")
+		w.userAsked = true
+		w.userClose()
+		ex.pump()
+	default:
+		if !strings.HasPrefix(op, "close-") {
+			ex.r.Harness("unknown scenario op %q", op)
+		}
+		kind := op[len("close-"):]
+		if w.closeDelivered != "" || ex.terminal() {
+			ex.skippedOps++
+			return
+		}
+		w.freeze()
+		if kind == "remote-pending" && w.commits[zzSetP] == nil {
+			ex.skippedOps++
+			return
+		}
+		if kind == "local" && !ex.localCommitUp {
+			// the reference had broadcast by now, this execution has not:
+			// the difference is judged by the comparison at the end
+			ex.skippedOps++
+			return
+		}
+		// The commitment confirms in a new block. The arbitrator sees that
+		// block first (with the HTLC sets as they are now), so that the
+		// decision it would take on its own at this height with these sets
+		// has been taken — and made durable — before the close event
+		// arrives; a restart at this height re-takes the same decision.
+		ex.preBlock(1)
+		if ex.terminal() {
+			ex.skippedOps++
+			return
+		}
+		if kind == "coop" && ex.localCommitUp {
+			ex.skippedOps++
+			return
+		}
+		w.closeHeight = w.height
+		w.nextStim("close event: " + kind + " commitment confirmed")
+		w.closeDelivered = kind
+		ex.chain.closeConfirmed(kind, draw)
+		w.deliverClose(kind)
+		ex.pump()
+	}
+}
+
+// preBlock: blocks before any commitment confirmed (nothing happens on chain).
+func (ex *zzC13Exec) preBlock(n int) {
+	w := ex.w
+	w.height += uint32(n)
+	w.clk.SetTime(w.clk.Now().Add(time.Duration(n) * w.cfg.perBlock))
+	w.nextStim(fmt.Sprintf("block height=%d", w.height))
+	ex.beat()
+}
+
+func (ex *zzC13Exec) beat() {
+	if ex.terminal() {
+		return
+	}
+	ex.w.beat()
+	ex.pump()
+}
+
+// postBlock: one block after the close; the chain script decides its content.
+func (ex *zzC13Exec) postBlock() {
+	w := ex.w
+	ex.postBlocks++
+	w.height++
+	w.clk.SetTime(w.clk.Now().Add(w.cfg.perBlock))
+	w.nextStim(fmt.Sprintf("block height=%d", w.height))
+	epoch := ex.restarts
+	ex.chain.block()
+	if ex.restarts != epoch {
+		// the node went down while this block was being delivered; it
+		// came back at this height (Start re-delivers the tip)
+		return
+	}
+	ex.beat()
+	ex.snapshotKeys()
+	ex.r.State(fmt.Sprintf("%s/%s/unres%d", w.closeDelivered, ex.arbState(), len(ex.contractKeys())))
+}
+
+func (ex *zzC13Exec) arbState() string {
+	inc := ex.w.inc
+	if inc == nil || inc.arb == nil {
+		return "none"
+	}
+	return inc.arb.state.String()
+}
+
+// ---------------------------------------------------------------------------
+// pump: everything the environment does in reaction to the node, until
+// nothing is left to do. Returns true if the node was restarted.
+
+func (ex *zzC13Exec) pump() bool {
+	restarted := false
+	for iter := 0; ; iter++ {
+		if iter > 500 {
+			ex.r.Harness("C13 pump does not converge")
+		}
+		if ex.w.kv.Fenced() {
+			ex.restart()
+			restarted = true
+			continue
+		}
+		if ex.chain.handleSweeps() {
+			continue
+		}
+		if ex.handleLearned() {
+			continue
+		}
+		if ex.handleResolved() {
+			continue
+		}
+		break
+	}
+	ex.snapshotKeys()
+	return restarted
+}
+
+// handleLearned: the witness beacon notifies its subscribers of preimages the
+// node itself added (AddPreimages after a remote claim).
+func (ex *zzC13Exec) handleLearned() bool {
+	w := ex.w
+	if ex.learnedSeen >= len(w.learned) {
+		return false
+	}
+	no := w.learned[ex.learnedSeen]
+	ex.learnedSeen++
+	return ex.chain.pushPreimage(no)
+}
+
+// handleResolved plays ChainArbitrator.resolveContracts/ResolveContract for a
+// NotifyChannelResolved signal: mark the channel fully closed, stop the
+// arbitrator, wipe its log.
+func (ex *zzC13Exec) handleResolved() bool {
+	w := ex.w
+	inc := w.inc
+	if inc == nil || inc.arb == nil || inc.dead {
+		return false
+	}
+	if inc.resolvedSignal <= ex.resolvedSeen[inc.epoch] {
+		return false
+	}
+	ex.resolvedSeen[inc.epoch] = inc.resolvedSignal
+	ex.markAttempts++
+	// ORACLE (statement: "the channel is marked fully resolved only after
+	// all contracts are resolved"): the unresolved-contracts bucket must be
+	// empty when the arbitrator reports the channel resolved.
+	if keys := ex.contractKeys(); len(keys) > 0 && ex.earlyMark == "" {
+		ex.earlyMark = fmt.Sprintf("%d unresolved contract(s) %v still in the log (arbitrator state %v)", len(keys), keys, inc.arb.state)
+	}
+	w.logf("chain arbitrator: marking channel fully closed")
+	if err := w.dbPut(zzChanBucket, []byte("fully"), []byte{1}); err != nil {
+		if w.kv.Fenced() {
+			return true
+		}
+		ex.r.Harness("mark fully closed: %v", err)
+	}
+	ex.terminalAt = w.stim
+	w.kill()
+	if err := inc.log.WipeHistory(); err != nil {
+		if w.kv.Fenced() {
+			return true
+		}
+		ex.r.Harness("wipe history: %v", err)
+	}
+	return true
+}
+
+// ---------------------------------------------------------------------------
+// crash and restart
+
+func (ex *zzC13Exec) restart() {
+	w, r := ex.w, ex.r
+	ex.restarts++
+	if ex.restarts > 4 {
+		r.Harness("C13: more restarts than armed crashes")
+	}
+	n := w.kv.Writes()
+	desc := fmt.Sprintf("epoch %d crashed at write %d (%s), arbitrator state in memory %s",
+		w.epoch, n, ex.labelOf(len(ex.labels)-1, n), ex.arbState())
+	if ex.restarts <= len(ex.crashes) {
+		desc = ex.crashes[ex.restarts-1].String() + ": " + desc
+	}
+	ex.fired = append(ex.fired, desc)
+	if l := ex.labelOf(len(ex.labels)-1, n); l != "?" {
+		r.Count("probe_crash_at_" + l[:strings.Index(l, "<")])
+	}
+	ex.crashStims = append(ex.crashStims, w.stim)
+	ex.crashStates = append(ex.crashStates, ex.arbState())
+	ex.writesIn = append(ex.writesIn, n)
+	w.logf("CRASH %s", desc)
+	r.State("crash/" + w.closeDelivered + "/" + ex.arbState())
+
+	w.kill()
+	r.Must(w.kv.Reopen(), "reopen simkv")
+	ex.labels = append(ex.labels, map[int]string{})
+	if ex.restarts < len(ex.crashes) {
+		ex.arm(ex.crashes[ex.restarts])
+	}
+
+	// ChainArbitrator.Start: read every arbitrator's start state in one read
+	// transaction, then Start(startState). A failure there takes the whole
+	// node down. ORACLE ("after restart it resumes from the recorded stage"):
+	// the persisted state must be loadable.
+	if _, _, _, fully := w.closedInfo(); fully {
+		ex.diskStates = append(ex.diskStates, "fully-closed")
+	} else {
+		bl, err := newBoltArbitratorLog(w.kv, ChannelArbitratorConfig{ChanPoint: w.chanPoint}, chainhash.Hash{}, w.chanPoint)
+		r.Must(err, "newBoltArbitratorLog")
+		probe := &ChannelArbitrator{log: bl}
+		disk := "?"
+		wasClosed, _, _, _ := w.closedInfo()
+		ex.inLabel = true
+		err = kvdb.View(w.kv, func(tx kvdb.RTx) error {
+			st, err := probe.getStartState(tx)
+			if err == nil {
+				disk = st.currentState.String()
+				if !wasClosed && st.commitSet != nil {
+					// the confirmed commit set is on disk but the
+					// channel was not yet marked closed
+					disk += "(commit-set-logged,channel-open)"
+				}
+			}
+			return err
+		}, func() {})
+		ex.inLabel = false
+		ex.diskStates = append(ex.diskStates, disk)
+		w.logf("restart: arbitrator state on disk %s", disk)
+		if err != nil {
+			r.Fail("restart-start-error", "%s: the arbitrator's start state cannot be loaded after the restart: %v", ex.where(), err)
+		}
+		// what the log holds at this restart (observation only): resolvers
+		// whose durable record already says "resolved"
+		ex.inLabel = true
+		cs, err := bl.FetchUnresolvedContracts()
+		ex.inLabel = false
+		if err == nil {
+			for _, c := range cs {
+				if k := c.ResolverKey(); len(k) == resolverIDLen && c.IsResolved() {
+					var op wire.OutPoint
+					copy(op.Hash[:], k[:32])
+					op.Index = endian.Uint32(k[32:])
+					ex.resolvedAtRestart[op.String()] = zzResolverName(c)
+					r.Count("probe_restart_with_resolved_resolver_in_log")
+				}
+			}
+		}
+	}
+
+	w.nextStim(fmt.Sprintf("restart at height %d", w.height))
+	w.boot()
+	if w.inc.arb == nil || w.kv.Fenced() {
+		return
+	}
+	closed, _, _, _ := w.closedInfo()
+	switch {
+	case closed:
+		// pending-close channel: no chain watcher, nothing re-delivered
+	case w.closeDelivered != "":
+		// the chain watcher finds the funding outpoint already spent and
+		// dispatches the close event again
+		w.logf("chain watcher: re-dispatching %s close", w.closeDelivered)
+		w.deliverClose(w.closeDelivered)
+	case w.dbGet(zzChanBucket, []byte("bcast")) != nil && w.frozen:
+		// ChainArbitrator.republishClosingTxs
+		ex.chain.onPublish(w.commits[zzSetL].tx)
+	}
+	if w.kv.Fenced() {
+		return
+	}
+	if w.userAsked && !closed && w.closeDelivered == "" && w.inc.arb.state == StateDefault {
+		// the user's request died with the process; the user asks again
+		w.logf("user repeats the force close request")
+		w.userClose()
+	}
+}
+
+func (ex *zzC13Exec) where() string {
+	if len(ex.fired) == 0 {
+		return "uninterrupted execution"
+	}
+	return "crash " + strings.Join(ex.fired, " ; then ")
+}
+
+// ---------------------------------------------------------------------------
+// write labels (which code performed write k): used for messages and for the
+// structural signature of findings
+
+func (ex *zzC13Exec) onTx(write bool) {
+	if !write || ex.inLabel {
+		return
+	}
+	ex.inLabel = true
+	defer func() { ex.inLabel = false }()
+	if ex.w.kv.Fenced() {
+		return
+	}
+	k := ex.w.kv.Writes() + 1
+	ex.labels[len(ex.labels)-1][k] = zzC13WriteLabel()
+	// the log as it stands between two writes
+	for _, key := range ex.contractKeys() {
+		ex.keysSeen[key] = true
+	}
+}
+
+func (ex *zzC13Exec) labelOf(epochIdx, k int) string {
+	if epochIdx < 0 || epochIdx >= len(ex.labels) {
+		return "?"
+	}
+	if l, ok := ex.labels[epochIdx][k]; ok {
+		return l
+	}
+	return "?"
+}
+
+// zzC13WriteLabel names the log method and the lnd function that called it.
+func zzC13WriteLabel() string {
+	pcs := make([]uintptr, 40)
+	n := runtime.Callers(3, pcs)
+	frames := runtime.CallersFrames(pcs[:n])
+	method, caller := "", ""
+	for {
+		f, more := frames.Next()
+		name := f.Function
+		if i := strings.LastIndex(name, "contractcourt."); i >= 0 {
+			short := name[i+len("contractcourt."):]
+			switch {
+			case strings.Contains(short, "boltArbitratorLog)."):
+				if method == "" {
+					method = short[strings.Index(short, ").")+2:]
+				}
+			case strings.Contains(short, "zzWorld).dbPut"):
+				if method == "" {
+					method = "chandb"
+				}
+			case strings.Contains(short, "zz"):
+				if strings.Contains(short, "handleResolved") && caller == "" {
+					caller = "ChainArbitrator.ResolveContract"
+				}
+			case strings.Contains(short, ".func"):
+				// closures (Checkpoint, config callbacks): keep looking
+			default:
+				if caller == "" {
+					caller = strings.NewReplacer("(*", "", ")", "").Replace(short)
+				}
+			}
+		}
+		if !more || (method != "" && caller != "") {
+			break
+		}
+	}
+	if i := strings.Index(method, "."); i >= 0 {
+		method = method[:i]
+	}
+	return method + "<" + caller
+}
+
+// ---------------------------------------------------------------------------
+// observation of the durable contract bucket
+
+// contractKeys lists the resolver keys currently in the unresolved-contracts
+// bucket of the arbitrator log (sorted, hex).
+func (ex *zzC13Exec) contractKeys() []string {
+	w := ex.w
+	scope, err := newLogScope(chainhash.Hash{}, w.chanPoint)
+	if err != nil {
+		ex.r.Harness("log scope: %v", err)
+	}
+	var keys []string
+	prev := ex.inLabel
+	ex.inLabel = true
+	_ = kvdb.View(w.kv, func(tx kvdb.RTx) error {
+		sb := tx.ReadBucket(scope[:])
+		if sb == nil {
+			return nil
+		}
+		cb := sb.NestedReadBucket(contractsBucketKey)
+		if cb == nil {
+			return nil
+		}
+		return cb.ForEach(func(k, v []byte) error {
+			if len(k) == resolverIDLen {
+				var op wire.OutPoint
+				copy(op.Hash[:], k[:32])
+				op.Index = endian.Uint32(k[32:])
+				keys = append(keys, op.String())
+			}
+			return nil
+		})
+	}, func() { keys = nil })
+	ex.inLabel = prev
+	sort.Strings(keys)
+	return keys
+}
+
+func (ex *zzC13Exec) snapshotKeys() {
+	if ex.w.kv.Fenced() {
+		return
+	}
+	for _, k := range ex.contractKeys() {
+		ex.keysSeen[k] = true
+	}
+}
